@@ -264,7 +264,8 @@ class Vector():
 		if x is None:
 			return 0x9E3779B97F4A7C15
 		
-		if hasattr(x, "fingerprint") and callable(getattr(x, "fingerprint")):
+		if isinstance(x, Vector):
+			# (by type, not by attribute: an element of any other class may have a fingerprint() of its own)
 			# a column of a table (or a nested vector): scattered, so that the fold over the
 			# columns is not the same polynomial as the fold inside each column
 			return _mix64(int(x.fingerprint()) ^ _FP_TAG_VECTOR)
